@@ -363,7 +363,10 @@ OnSummary(S, m, e) ==
       nC == Cardinality({k \in 1..Len(e.res) : Class(e.res[k]) = "canceled"})
       allran == FaultFree(m) /\ ~m.cancelSeen /\ ~AnyDry(S) /\ Acyclic(S)
       full == nset = J /\ IsInj(names)
-      a1 == Check(m,  "OneEntryPerJob", TRUE, IsInj(names) /\ nset \subseteq J)
+      \* C05: completion happens once -- the completion sequence (which writes results.json) never runs on a submission
+      \* whose completion flag is already set
+      a0 == Check(m,  "SummaryOnlyBeforeFlag", TRUE, ~(m.hasSt /\ m.st.complete))
+      a1 == Check(a0, "OneEntryPerJob", TRUE, IsInj(names) /\ nset \subseteq J)
       a2 == Check(a1, "MissingExact", TRUE, miss = J \ nset /\ IsInj(e.missing))
       a3 == Check(a2, "TallyPartition", TRUE,
                   e.tally = <<nS, nF, nC, Len(e.missing)>> /\ nS + nF + nC + Len(e.missing) = Cardinality(J))
@@ -380,7 +383,12 @@ OnSummary(S, m, e) ==
                   \A j \in J : IF cls(j) = "canceled" THEN Cardinality(m.placed[j]) <= 1 ELSE Cardinality(m.placed[j]) = 1)
       a10 == Check(a9, "AllRowsReported", allran /\ S.mode = "hpc",
                   \A r \in m.appended : (r[3] = "finished" => r \in m.reported))
-      a11 == Check(a10, "RerunAllFresh", allran /\ m.epoch > 0 /\ IsInj(names),
+      \* C11: after a transient failure of the scheduler's status query the following rounds proceed normally --
+      \* the run ends with the same complete results as a run without that failure
+      sqOnly == m.faulty /\ ~m.otherFaults /\ ~m.nodefault /\ ~m.cancelSeen /\ ~AnyDry(S) /\ Acyclic(S) /\ m.epoch = 0
+      a10b == Check(a10, "AfterSqueueFaultNormal", sqOnly,
+                    nset = J /\ miss = {} /\ IsInj(names) /\ \A j \in J : cls(j) = S.ref[j])
+      a11 == Check(a10b, "RerunAllFresh", allran /\ m.epoch > 0 /\ IsInj(names),
                    \A j \in m.rerun : j \in nset /\ m.launches[j] = (IF cls(j) = "canceled" THEN 0 ELSE 1))
       \* same name, return code, status and times (the HPC id is not part of what must be preserved)
       a12 == Check(a11, "UntouchedPreserved", m.epoch > 0,
@@ -482,6 +490,7 @@ ClausesOf(c) ==
     [] c = "C03" -> {"FinalResultsComplete", "FinalResultsMatchReference", "OneEntryPerJob", "LocalRunRecordsResults"}
     [] c = "C04" -> {"CanceledShape", "CanceledNeverRuns", "CanceledOnlyIf", "CanceledIff", "RanExactlyOnceUnlessCanceled"}
     [] c = "C05" -> {"QuiescentRoundProgress", "NoIdleLeftover", "CompleteHasAllResults", "SummaryBeforeFlag", "CompleteOnce",
+                     "SummaryOnlyBeforeFlag",
                      "NoSbatchAfterComplete", "CompletesAfterRecovery"}
     [] c = "C06" -> {"NodesBound", "ProcsBound"}
     [] c = "C07" -> {"BatchNonEmpty", "BatchJobsKnown", "OneGroup", "BatchSizeOrTime", "BlockedOnlyWithAllBlockers",
@@ -493,7 +502,7 @@ ClausesOf(c) ==
                      "CountersMonotone", "StateAdvances", "BlockersShrink", "CompleteSticky", "BatchIndexMonotone"}
     [] c = "C10" -> {"OneSubmitter", "PromotionRefusedWhileHeld", "PromotionGrantedOnlyWhenFree", "StaleWriteRejected"}
     [] c = "C11" -> {"OnePlacement", "OneLaunch", "StartAfterBlockers", "RowsNeverLost", "SqueueFailureHarmless", "FreshBatchIndex",
-                     "CanceledNeverRuns"}
+                     "CanceledNeverRuns", "AfterSqueueFaultNormal", "CompletesAfterRecovery"}
     [] c = "C12" -> {"MissingExact", "NoFabricatedResult", "FinishedKeepResults", "ResultKnownJob", "ResultStatusKnown", "OneResultPerJob",
                      "StartAfterBlockers", "CompletesAfterRecovery", "OneLaunch", "CanceledNeverRuns"}
     [] c = "C13" -> {"RerunExactly", "RerunAllFresh", "UntouchedPreserved", "UntouchedNotRerun", "OneEntryPerJob", "OneLaunch",
